@@ -23,7 +23,7 @@ import z3
 from contracts import common
 from pvc.contract import Call, Contract
 from pvc.interp import GenV, PyDict, Splat
-from pvc.sym import Mat, PyRaise, SInt, SMat, SObj, SReal, SSeq, Unsupported, mat_el, to_int, to_real, wrap
+from pvc.sym import Mat, PyRaise, SInt, SMat, SNum, SObj, SReal, SSeq, Unsupported, mat_el, to_int, to_real, wrap
 from pvc.symtheory import Env, Expr, ExprV, Str, StrV, Sym, SymV, diff_f, ev_f, lookup_f, name_f
 from pvc.sympy_model import closed_f
 
@@ -659,7 +659,8 @@ class RemoveInnovation(Contract):
         k = None
         if self.enabled:
             k = P.fresh_real("editing_threshold")
-            W.config.fields["innovation_filtering"] = SReal(k)
+            # a number of any Python class (Optional[float] admits 3, np.int64(3), np.float32(1.5)): class tests on it are unknowns
+            W.config.fields["innovation_filtering"] = SNum(k)
         else:
             W.config.fields["innovation_filtering"] = None
         m = W.ms.m
@@ -791,7 +792,7 @@ class SensorUpdate(Contract):
         P.ghost["world"] = W
         P.ghost["site"] = self.prefix
         if self.enabled:
-            W.config.fields["innovation_filtering"] = SReal(P.fresh_real("editing_threshold"))
+            W.config.fields["innovation_filtering"] = SNum(P.fresh_real("editing_threshold"))
         st, cov = W.state(), W.covariance()
         z = common.make_named_instance(I, W.Reading, "reading")
         psd_axioms(P)
